@@ -58,7 +58,7 @@ def body_vectorise(E, cfg):
 
 def configs_vectorise(tier):
     cfgs = []
-    for n in ((1, 2, 3) if tier == "quick" else (1, 2, 3, 4)):
+    for n in ((1, 2, 3) if tier == "quick" else (1, 2, 3, 4, 5)):
         for res in ((1, 100) if tier == "quick" else (1, 3, 100, 1400)):
             for end in (False, True):
                 cfgs.append({"n": n, "res": res, "end": end})
@@ -90,8 +90,8 @@ def body_blur(E, cfg):
 
 
 def configs_blur(tier):
-    top = 6 if tier == "quick" else 8
-    return [{"n": n, "radius": r} for n in (0, 1, 3, top) for r in (0, 1, 2, 3, 4)]
+    top = 6 if tier == "quick" else 10
+    return [{"n": n, "radius": r} for n in ((0, 1, 3, top) if tier == "quick" else (0, 1, 2, 3, 5, 8, top)) for r in (0, 1, 2, 3, 4, 6)]
 
 
 def body_bin(E, cfg):
@@ -166,7 +166,7 @@ def body_select(E, cfg):
 
 
 def configs_select(tier):
-    shapes = [[0], [1], [2, 1], [1, 0, 2], [3, 2]] if tier == "quick" else [[0], [1], [2, 1], [1, 0, 2], [3, 2], [2, 2, 2]]
+    shapes = [[0], [1], [2, 1], [1, 0, 2], [3, 2]] if tier == "quick" else [[0], [1], [2, 1], [1, 0, 2], [3, 2], [2, 2, 2], [3, 3, 1], [2, 2, 2, 1]]
     return [{"peaks": s, "count": k} for s in shapes for k in (0, 1, 2, 3, 6) if not (tier == "quick" and sum(s) >= 5 and k in (2, 6))] + \
         [{"peaks": [2, 1], "count": k, "domain": 2} for k in (1, 2)]
 
@@ -218,7 +218,7 @@ def body_create(E, cfg):
 
 
 def configs_create(tier):
-    top = 4 if tier == "quick" else 5
+    top = 4 if tier == "quick" else 7
     return [{"n": n, "count": k, "res": r} for n in range(0, top + 1) for k in (1, 2, 3, 10) for r in (100,) if not (n == 0 and k > 1)]
 
 
